@@ -51,28 +51,30 @@ type TypeDef struct {
 
 // Profile tunes the generator.
 type Profile struct {
-	MaxServices   int
-	Entities      [2]int // min,max
-	Values        [2]int
-	Interfaces    [2]int
-	Unions        [2]int
-	FieldsPerType [2]int
-	RootFields    [2]int
-	PArgs         float64 // probability a field takes arguments
-	PList         float64
-	PNested       float64 // nested list
-	Mutations     bool
-	Subscriptions bool
-	Uploads       bool
-	SharedRoots   bool    // same root field name on Query and Mutation
-	DropNode      float64 // probability a service omits Query.node although it has entities
-	Directives    bool
-	Descriptions  bool
-	NodeLookalike float64 // probability of a root field shaped like node: lookup(id: ID!): Node
-	SplitValue    float64 // probability of a value type declared with disjoint field sets by two services (merge-only)
-	BareEntity    float64 // probability of an entity type that has no field besides id in any service
-	EmptyAbstract float64 // probability of an interface without any implementing type, reachable from a root field
-	SpreadEnum    bool    // services declare different subsets of an enum's values (merge-only universes)
+	MaxServices    int
+	Entities       [2]int // min,max
+	Values         [2]int
+	Interfaces     [2]int
+	Unions         [2]int
+	FieldsPerType  [2]int
+	RootFields     [2]int
+	PArgs          float64 // probability a field takes arguments
+	PList          float64
+	PNested        float64 // nested list
+	Mutations      bool
+	Subscriptions  bool
+	Uploads        bool
+	SharedRoots    bool    // same root field name on Query and Mutation
+	DropNode       float64 // probability a service omits Query.node although it has entities
+	Directives     bool
+	Descriptions   bool
+	NodeLookalike  float64 // probability of a root field shaped like node: lookup(id: ID!): Node
+	SplitValue     float64 // probability of a value type declared with disjoint field sets by two services (merge-only)
+	BareEntity     float64 // probability of an entity type that has no field besides id in any service
+	EmptyAbstract  float64 // probability of an interface without any implementing type, reachable from a root field
+	NodeNamedField float64 // probability that a single-object reference field of an object type is called `node` (edge.node style)
+	ScalarArgs     bool    // fields may take an argument of the custom scalar type (meta: Stamp)
+	SpreadEnum     bool    // services declare different subsets of an enum's values (merge-only universes)
 }
 
 func DefaultProfile() Profile {
@@ -250,6 +252,9 @@ func NewUniverse(r *rand.Rand, p Profile) *Universe {
 			{Name: "ids", Type: "[ID!]"}, {Name: "x", Type: "Float"}, {Name: "b", Type: "Boolean", Default: "true"},
 			{Name: "fs", Type: "[Filter!]"},
 		}
+		if p.ScalarArgs {
+			cands = append(cands, Arg{Name: "meta", Type: "Stamp"}, Arg{Name: "meta", Type: "Stamp"}, Arg{Name: "meta", Type: "Stamp!"}, Arg{Name: "metas", Type: "[Stamp!]"})
+		}
 		used := map[string]bool{}
 		for i := 0; i < n; i++ {
 			a := pick(r, cands)
@@ -295,6 +300,8 @@ func NewUniverse(r *rand.Rand, p Profile) *Universe {
 				nm := pick(r, refNames)
 				if strings.HasPrefix(ty, "[") {
 					nm = pick(r, listNames)
+				} else if p.NodeNamedField > 0 && r.Float64() < p.NodeNamedField {
+					nm = "node"
 				}
 				if used[nm] {
 					continue
